@@ -154,3 +154,40 @@ def lonContinuity (w e s n : Rat) (lons lats : List Rat) :
   else pure (⟨w', e', s, n⟩, lons.map (lonPoint i360))
 
 end Verde
+
+namespace Verde
+
+/-- `scatter_points` for one axis with the uniform variates `u ∈ [0,1)` drawn by the code's RNG supplied as inputs
+    (`RandomState.uniform(lo, hi)` is `lo + (hi-lo)·random_sample()`). -/
+def scatterAxis (lo hi : Rat) (us : List Rat) : List Rat := us.map fun u => lo + (hi - lo) * u
+
+def scatterPoints (region : List Rat) (ue un : List Rat) (extra : List Rat) : Except Err (List (List Rat)) := do
+  let r ← checkRegion region
+  pure (scatterAxis r.w r.e ue :: scatterAxis r.s r.n un :: extra.map fun v => ue.map fun _ => v)
+
+/-- `maxabs(*arrays)`: per array `max(|min|, |max|)`, then the max over arrays (an empty array is an error). -/
+def arrMaxabs (a : List Rat) : Rat := ratMax (ratAbs ((listMin a).getD 0)) (ratAbs ((listMax a).getD 0))
+def maxabs (arrays : List (List Rat)) : Option Rat :=
+  if arrays.any (·.isEmpty) then none else listMax (arrays.map arrMaxabs)
+
+/-- Projections used by the correspondence (rational maps so the model stays exact). -/
+inductive Proj where
+  | affine (a b c d : Rat)      -- (a·e + b, c·n + d)
+  | cube (k : Rat)              -- (e³/k, n)            monotone, non-linear
+  | square                      -- (e², n²)             non-monotone across 0
+  | shear (k : Rat)             -- (e + k·n, n − k·e)   not axis-aligned
+  deriving Repr
+
+def Proj.apply : Proj → Rat × Rat → Rat × Rat
+  | .affine a b c d, (e, n) => (a * e + b, c * n + d)
+  | .cube k, (e, n) => (e * e * e / k, n)
+  | .square, (e, n) => (e * e, n * n)
+  | .shear k, (e, n) => (e + k * n, n - k * e)
+
+/-- `project_region`: bounding box of the projected nodes of a 101×101 grid of the region. -/
+def projectRegion (region : List Rat) (p : Proj) (size : Nat := 101) : Except Err (Option Region) := do
+  let (east, north) ← gridLines region ⟨some (size, size), none, .spacing, false⟩
+  let pts := north.flatMap fun y => east.map fun x => p.apply (x, y)
+  pure (getRegion (pts.map (·.1)) (pts.map (·.2)))
+
+end Verde
